@@ -223,7 +223,7 @@ def _iter_zones(zone: "Zone"):
 def _unique_sheet_name(base: str, used: set[str]) -> str:
     """Return an Excel-safe, unique sheet name capped at 31 chars."""
     cleaned = _sanitize_sheet_name(base)
-    candidate = cleaned[:31] or "Sheet"
+    candidate = cleaned[:31].rstrip("'") or "Sheet"
     if candidate not in used:
         used.add(candidate)
         return candidate
@@ -241,5 +241,5 @@ def _unique_sheet_name(base: str, used: set[str]) -> str:
 
 def _sanitize_sheet_name(name: str) -> str:
     """Replace characters Excel forbids in sheet names and strip trailing apostrophes."""
-    cleaned = re.sub(r"[:/?*\\\[\]]", "_", name).strip().rstrip("'")
+    cleaned = re.sub(r"[:/?*\\\[\]]", "_", name).strip().strip("'")
     return cleaned or "Sheet"
